@@ -130,20 +130,28 @@ Proof.
     rewrite zlen_take; lia.
 Qed.
 
+Lemma zlen_0_nil (b : bits) : (zlen b =? 0) = true -> b = [].
+Proof. destruct b; [reflexivity|]. unfold zlen. cbn [length]. lia. Qed.
+
 (* ---------- each mutator equals its specification ---------- *)
 Theorem step_refines b op : model_step b op = spec_step b op.
 Proof.
   pose proof (zlen_nonneg b) as Hlen.
   destruct op; cbn [model_step spec_step].
   - (* insert *)
-    unfold ba_insert, norm_pos. destruct (zlen bs =? 0); [reflexivity|].
+    unfold ba_insert, norm_pos.
     set (p := if pos <? 0 then pos + zlen b else pos).
     destruct ((0 <=? p) && (p <=? zlen b)) eqn:E; [|reflexivity].
+    destruct (zlen bs =? 0) eqn:E0.
+    { apply zlen_0_nil in E0. subst bs. cbn [app]. unfold take, drop. now rewrite firstn_skipn. }
     unfold insert_. rewrite E. unfold setslice, setslice_msb0. apply setslice_unit; lia.
   - (* overwrite *)
-    unfold ba_overwrite, norm_pos. destruct (zlen bs =? 0) eqn:E0; [reflexivity|].
+    unfold ba_overwrite, norm_pos.
     set (p := if pos <? 0 then pos + zlen b else pos).
     destruct ((p <? 0) || (p >? zlen b)) eqn:E; destruct ((0 <=? p) && (p <=? zlen b)) eqn:E'; try lia; [reflexivity|].
+    destruct (zlen bs =? 0) eqn:E0.
+    { apply zlen_0_nil in E0. subst bs. cbn [app zlen length]. change (Z.of_nat 0) with 0. rewrite Z.add_0_r.
+      unfold take, drop. now rewrite firstn_skipn. }
     unfold overwrite_. rewrite E'. cbn [andb]. unfold setslice, setslice_msb0.
     pose proof (zlen_nonneg bs).
     destruct (Z_le_gt_dec (p + zlen bs) (zlen b)) as [Hin|Hout].
